@@ -1230,6 +1230,13 @@ func (c19) Gen(r *kern.Rng, tier string, idx int) *Trace {
 	}
 	sc.Data = d
 	sc.Ops = GenOps(r, d.Len, r.Pick(0, 0, 10, 40), 120)
+	if r.Pct(25) {
+		// a reused Writer: an earlier life, Reset, then the stream that is measured
+		n1 := r.Pick(0, 100, 5000, 20000, 70000)
+		h1 := genH1(r, n1)
+		sc.Data.Len += n1
+		sc.Ops = append(append(h1, scen.WOp{K: "r"}), sc.Ops...)
+	}
 	return &Trace{Property: "C19", Family: "W-plain", W: sc}
 }
 
@@ -1250,11 +1257,22 @@ func (c19) Exec(tr *Trace, keep bool) *Outcome {
 		o.violate(tr, "C19.panic", rec.Panic, feat)
 		return o
 	}
-	if !allNil(rec) {
+	last := rec.Segs[len(rec.Segs)-1]
+	lastStart := 0
+	for i, op := range sc.Ops {
+		if op.K == "r" {
+			lastStart = i + 1
+		}
+	}
+	if rec.CtorErr != nil || len(rec.Ops) != len(sc.Ops) || !allNilOps(rec.Ops[lastStart:]) || countOps(sc.Ops[lastStart:], "c") != 1 || sc.Ops[len(sc.Ops)-1].K != "c" {
 		o.fold(log, false)
 		return o
 	}
-	out := rec.Segs[0].Sink.Data
+	if lastStart > 0 {
+		o.stat("runs_on_reused_writer", 1)
+		total = len(last.Model)
+	}
+	out := last.Sink.Data
 	rr := ref.Inflate(out, ref.Options{})
 	o.fold(log, rr.Matches > 0 && total > limit)
 	reachW(o, rr, sc, total)
@@ -1268,7 +1286,7 @@ func (c19) Exec(tr *Trace, keep bool) *Outcome {
 	}
 	// decode with a reference inflater that only keeps `limit` bytes of history
 	rw := ref.Inflate(out, ref.Options{Window: limit})
-	if rw.Defect != nil || !rw.Complete || !bytes.Equal(rw.Out, rec.Segs[0].Model) {
+	if rw.Defect != nil || !rw.Complete || !bytes.Equal(rw.Out, last.Model) {
 		d := "incomplete"
 		if rw.Defect != nil {
 			d = rw.Defect.String()
